@@ -14,7 +14,7 @@
 //! * `negative`  — placeholder index out of range, unused arguments: must be rejected by rustc.
 //! The reference side lives in the generated program (`__exp`/`__ref` methods binding the fields as documented).
 use super::lit::{Cnt, Spec};
-use super::p02::{arg_expr, gen_fields, Field, FMT_TRAITS, K};
+use super::p02::{arg_expr, arg_expr_in, gen_fields, unraw, Field, FMT_TRAITS, K};
 use super::progprop::*;
 use super::proggen::CaseResult;
 use serde_json::json;
@@ -215,6 +215,9 @@ struct Shape {
     /// the enum also carries an enum-level format that does not mention `_variant`: it is only a default for variants
     /// without an attribute of their own (C07), so it must not change anything for the variant under test
     shared_default: bool,
+    /// the format under test is written on the *enum* and the variant under test has no attribute of its own: a
+    /// non-`_variant` enum-level format is the format of exactly such variants (display.md, "Default enum format")
+    shared_only: bool,
 }
 
 impl Shape {
@@ -255,7 +258,11 @@ impl Shape {
         let ctor = self.ctor();
         let al = attr_line.map(|a| format!("#[{attr}({a})]")).unwrap_or_default();
         let imp = format!("impl T {{\n    pub fn tag(&self) -> u32 {{ 7 }}\n{methods}}}\n");
-        if self.is_enum {
+        if self.is_enum && self.shared_only && attr_line.is_some() {
+            format!(
+                "#[derive(derive_more::{tr})]\n{al}\npub enum T {{\n    V{decl},\n    #[{attr}(\"other\")]\n    Other,\n}}\n{imp}pub fn run(o: &mut Out) {{\n    let v = T::V{ctor};\n{run_body}}}\n"
+            )
+        } else if self.is_enum {
             let shared = if self.shared_default && attr_line.is_some() { format!("#[{attr}(\"<shared default>\")]\n") } else { String::new() };
             format!(
                 "#[derive(derive_more::{tr})]\n{shared}pub enum T {{\n    {al}\n    V{decl},\n    #[{attr}(\"other\")]\n    Other,\n}}\n{imp}pub fn run(o: &mut Out) {{\n    let v = T::V{ctor};\n{run_body}}}\n"
@@ -278,10 +285,18 @@ impl Shape {
 fn gen_shape(d: &mut Dice, min: usize, max: usize, tr_idx: usize) -> Shape {
     let (tr, attr, tr_ty) = FMT_TRAITS[tr_idx];
     let is_enum = d.chance(30);
-    let (named, fields) = gen_fields(d, min, max);
+    let (named, mut fields) = gen_fields(d, min, max);
     let values = fields.iter().enumerate().map(|(i, f)| f.kind.value(i, d)).collect();
     let shared_default = is_enum && attr != "debug" && d.chance(35);
-    Shape { tr, attr, tr_ty, is_enum, named, fields, values, shared_default }
+    let shared_only = is_enum && attr != "debug" && !shared_default && d.chance(35);
+    if named && d.chance(25) {
+        // raw-identifier field: `r#type` as binding / argument / alias, `type` inside the literal
+        let k = d.pick(fields.len());
+        let raw = ["r#type", "r#fn", "r#match"][d.pick(3)];
+        fields[k].name = raw.to_string();
+        fields[k].member = raw.to_string();
+    }
+    Shape { tr, attr, tr_ty, is_enum, named, fields, values, shared_default, shared_only }
 }
 
 fn lit_tok(s: &str) -> String {
@@ -308,8 +323,22 @@ struct Refer {
 /// draws one of the argument forms of the statement for a single placeholder
 fn gen_refer(d: &mut Dice, sh: &Shape) -> Refer {
     let f = sh.fields[d.pick(sh.fields.len())].clone();
-    match d.weighted(&[4, 4, 2, 2]) {
-        0 => Refer { pos: f.name.clone(), args: vec![], value: f.name.clone(), inline: true, bare_field: true, kind: f.kind, label: "arg=field_by_name" },
+    match d.weighted(&[4, 4, 2, 2, 2]) {
+        4 => {
+            // a *positional* placeholder (`{}`, `{0}`, `{:x}`) whose only argument is written with an alias
+            // (`#[display("{}", value = _0)]`, `#[display("{0:x}", v = self.0)]`): `format_args!` lets a positional
+            // placeholder denote a named argument by index; "its only argument (positional index 0 or matching name)"
+            let (expr, kind, bare) = arg_expr_in(&f, d, !sh.is_enum);
+            let alias = match d.pick(3) {
+                0 => "value".to_string(),
+                1 => "v".to_string(),
+                // the alias may shadow a field name (also a raw one)
+                _ => sh.fields[d.pick(sh.fields.len())].name.clone(),
+            };
+            let pos = if d.chance(50) { String::new() } else { "0".to_string() };
+            Refer { pos, args: vec![format!("{alias} = {expr}")], value: expr, inline: false, bare_field: bare, kind, label: "arg=positional_placeholder_aliased_argument" }
+        }
+        0 => Refer { pos: unraw(&f.name), args: vec![], value: f.name.clone(), inline: true, bare_field: true, kind: f.kind, label: "arg=field_by_name" },
         1 => {
             let (expr, kind, bare) = arg_expr(&f, d);
             let pos = if d.chance(50) { String::new() } else { "0".to_string() };
@@ -319,7 +348,7 @@ fn gen_refer(d: &mut Dice, sh: &Shape) -> Refer {
             let (expr, kind, bare) = arg_expr(&f, d);
             // the alias may shadow a field name
             let alias = if sh.named && d.chance(25) { sh.fields[d.pick(sh.fields.len())].name.clone() } else { ["k", "v", "al"][d.pick(3)].to_string() };
-            Refer { pos: alias.clone(), args: vec![format!("{alias} = {expr}")], value: expr, inline: false, bare_field: bare, kind, label: "arg=named_matching" }
+            Refer { pos: unraw(&alias), args: vec![format!("{alias} = {expr}")], value: expr, inline: false, bare_field: bare, kind, label: "arg=named_matching" }
         }
         _ => {
             let (expr, kind, bare) = arg_expr(&f, d);
@@ -367,7 +396,7 @@ fn build_implicit(d: &mut Dice) -> GenCase {
     let kind = kinds[d.pick(kinds.len())];
     let named = d.chance(50);
     let (name, member) = if named {
-        let n = ["field", "a", "inner", "x"][d.pick(4)].to_string();
+        let n = ["field", "a", "inner", "x", "r#fn"][d.pick(5)].to_string();
         (n.clone(), n)
     } else {
         ("_0".to_string(), "0".to_string())
@@ -375,18 +404,38 @@ fn build_implicit(d: &mut Dice) -> GenCase {
     let field = Field { name, member, kind };
     let vi = d.pick(8);
     let value = kind.value(vi, d);
-    let sh = Shape { tr, attr: FMT_TRAITS[tr_idx].1, tr_ty, is_enum: d.chance(40), named, fields: vec![field.clone()], values: vec![value], shared_default: false };
+    let is_enum = d.chance(40);
+    // an attribute-less variant of an enum that has a non-`_variant` enum-level format: that format is the variant's
+    // format (display.md, "Default enum format"), an attribute-driven case that is not a bare placeholder => inert
+    let under_default = is_enum && d.chance(25);
+    let sh = Shape { tr, attr: FMT_TRAITS[tr_idx].1, tr_ty, is_enum, named, fields: vec![field.clone()], values: vec![value], shared_default: false, shared_only: under_default };
     let g = grid_fn(tr_ty);
     let methods = format!("    pub fn __exp(&self) -> Vec<String> {{\n{}        {g}({})\n    }}\n", sh.bindings(), field.name);
-    let run = format!("    let mut acc = __Acc::new();\n    acc.subst({tr_ty:?}, &{g}(&v), &v.__exp(), None);\n    acc.finish(o);\n");
-    let mut c = GenCase::new(sh.render(None, &methods, &run));
+    let mut c = if under_default {
+        let run = format!(
+            "    let mut acc = __Acc::new();\n    let plain = format!(\"{{:{tr_ty}}}\", v);\n    acc.same(\"an attribute-less variant prints the enum-level default format\", \"<shared default>\", &plain);\n    acc.inert({tr_ty:?}, &{g}(&v), &plain, &v.__exp());\n    acc.finish(o);\n"
+        );
+        GenCase::new(sh.render(Some("\"<shared default>\""), &methods, &run))
+    } else {
+        let run = format!("    let mut acc = __Acc::new();\n    acc.subst({tr_ty:?}, &{g}(&v), &v.__exp(), None);\n    acc.finish(o);\n");
+        GenCase::new(sh.render(None, &methods, &run))
+    };
     c.labels = vec!["class=implicit".into(), format!("trait={tr}"), format!("kind={}", if sh.is_enum { "enum" } else { "struct" }), format!("value={kind:?}")];
+    if under_default {
+        c.labels.push("implicit_under_enum_level_default".into());
+    }
+    if field.name.starts_with("r#") {
+        c.labels.push("raw_identifier_field".into());
+    }
     c.nontrivial = true;
     c.meta = json!({"class": "implicit"});
     c
 }
 
 fn build_subst(d: &mut Dice) -> GenCase {
+    if d.chance(6) {
+        return build_subst_const(d);
+    }
     let tr_idx = d.pick(9);
     let sh = gen_shape(d, 1, 3, tr_idx);
     let r = gen_refer(d, &sh);
@@ -394,7 +443,18 @@ fn build_subst(d: &mut Dice) -> GenCase {
     let ty = tys[d.pick(tys.len())];
     // std::fmt allows whitespace before the closing brace; it is no modifier
     let ws = if d.chance(8) { " " } else { "" };
-    let lit = if ty.is_empty() { format!("{{{}{ws}}}", r.pos) } else { format!("{{{}:{ty}{ws}}}", r.pos) };
+    // ... and between the argument and the colon (`{_0 :x}`)
+    let ws_colon = if !ty.is_empty() && !r.pos.is_empty() && d.chance(6) { " " } else { "" };
+    // `{:}` / `{_0:}`: a colon followed by an empty spec is still a bare placeholder
+    let empty_spec = ty.is_empty() && d.chance(15);
+    let ws = if empty_spec { "" } else { ws };
+    let lit = if ty.is_empty() {
+        format!("{{{}{}{ws}}}", r.pos, if empty_spec { ":" } else { "" })
+    } else {
+        format!("{{{}{ws_colon}:{ty}{ws}}}", r.pos)
+    };
+    // a trailing comma (after the literal or after the last argument) changes nothing, as for `format!`
+    let trailing_comma = d.chance(10);
     let vr = value_ref(&r);
     // recorded defect model: `{:p}` with a bare field binding as argument is delegated as `Pointer::fmt(_0, f)`,
     // which prints the pointer stored in the field (one dereference less than `format!("{:p}", _0)`)
@@ -413,7 +473,11 @@ fn build_subst(d: &mut Dice) -> GenCase {
         }
     }
     run.push_str("    acc.finish(o);\n");
-    let mut c = GenCase::new(sh.render(Some(&attr_args(&lit, &r.args)), &methods, &run));
+    let mut aa = attr_args(&lit, &r.args);
+    if trailing_comma {
+        aa.push(',');
+    }
+    let mut c = GenCase::new(sh.render(Some(&aa), &methods, &run));
     c.labels = vec![
         "class=subst".into(),
         format!("trait={}", sh.tr),
@@ -422,6 +486,11 @@ fn build_subst(d: &mut Dice) -> GenCase {
         format!("placeholder_type={}", if ty.is_empty() { "display" } else { ty }),
         r.label.into(),
     ];
+    if sh.is_enum && sh.shared_only {
+        c.labels.push("enum_level_format_under_test".into());
+        c.labels.push("subst_enum_level_bare_placeholder".into());
+    }
+    push_raw_labels(&mut c.labels, &sh, &lit);
     if !r.bare_field {
         c.labels.push("expression_argument".into());
     }
@@ -431,9 +500,69 @@ fn build_subst(d: &mut Dice) -> GenCase {
     if !ws.is_empty() {
         c.labels.push("placeholder_trailing_whitespace".into());
     }
+    if !ws_colon.is_empty() {
+        c.labels.push("placeholder_whitespace_before_colon".into());
+    }
+    if empty_spec {
+        c.labels.push("empty_spec_after_colon".into());
+    }
+    if trailing_comma {
+        c.labels.push("trailing_comma".into());
+    }
     // `format_args!` ignores every flag by itself: pass-through is not observable there
     c.nontrivial = !r.value.contains("format_args!");
     c.meta = json!({"class": "subst", "literal": lit, "ptr_model": ptr_model});
+    c
+}
+
+/// labels for raw-identifier fields: present in the shape / named (unraw'd) inside the literal
+fn push_raw_labels(labels: &mut Vec<String>, sh: &Shape, lit: &str) {
+    if let Some(f) = sh.fields.iter().find(|f| f.name.starts_with("r#")) {
+        labels.push("raw_identifier_field".into());
+        let n = unraw(&f.name);
+        if lit.contains(&format!("{{{n}}}")) || lit.contains(&format!("{{{n}:")) || lit.contains(&format!("{{{n} ")) {
+            labels.push("raw_identifier_in_placeholder".into());
+        }
+    }
+}
+
+/// a field-less struct / variant whose bare placeholder refers to its only argument, a constant expression
+fn build_subst_const(d: &mut Dice) -> GenCase {
+    let tr_idx = d.pick(9);
+    let (tr, attr, tr_ty) = FMT_TRAITS[tr_idx];
+    let is_enum = d.chance(30);
+    let (expr, kind) = [("7i32", K::Int), ("\"x\"", K::Str), ("1.5f64", K::Float), ("255usize", K::Size), ("&N0", K::Ptr)][d.pick(5)];
+    let tys = bare_tys(kind);
+    let ty = tys[d.pick(tys.len())];
+    let (pos, arg) = match d.pick(3) {
+        0 => (String::new(), expr.to_string()),
+        1 => ("0".to_string(), expr.to_string()),
+        _ => ("k".to_string(), format!("k = {expr}")),
+    };
+    let lit = if ty.is_empty() { format!("{{{pos}}}") } else { format!("{{{pos}:{ty}}}") };
+    let outers: Vec<&str> = if tr == "Debug" { vec!["?", "x?", "X?"] } else { vec![tr_ty] };
+    let mut run = String::from("    let mut acc = __Acc::new();\n");
+    for outer in &outers {
+        let g_exp = if ty == "?" && outer.ends_with('?') { grid_fn(outer) } else { grid_fn(ty) };
+        let _ = writeln!(run, "    acc.subst({outer:?}, &{}(&v), &{g_exp}(&({expr})), None);", grid_fn(outer));
+    }
+    run.push_str("    acc.finish(o);\n");
+    let aa = attr_args(&lit, &[arg]);
+    let body = if is_enum {
+        format!("#[derive(derive_more::{tr})]\npub enum T {{\n    #[{attr}({aa})]\n    V,\n    #[{attr}(\"other\")]\n    Other,\n}}\npub fn run(o: &mut Out) {{\n    let v = T::V;\n{run}}}\n")
+    } else {
+        format!("#[derive(derive_more::{tr})]\n#[{attr}({aa})]\npub struct T;\npub fn run(o: &mut Out) {{\n    let v = T;\n{run}}}\n")
+    };
+    let mut c = GenCase::new(body);
+    c.labels = vec![
+        "class=subst".into(),
+        "field_less_type_constant_argument".into(),
+        format!("trait={tr}"),
+        format!("kind={}", if is_enum { "enum" } else { "struct" }),
+        format!("placeholder_type={}", if ty.is_empty() { "display" } else { ty }),
+    ];
+    c.nontrivial = true;
+    c.meta = json!({"class": "subst", "literal": lit, "ptr_model": false});
     c
 }
 
@@ -495,17 +624,61 @@ fn build_inert(d: &mut Dice) -> GenCase {
     match form {
         0 => {
             // one placeholder, exactly one modifier
-            let r = gen_refer(d, &sh);
-            let which = d.pick(8);
-            let (spec, l) = one_modifier(d, r.kind, which);
-            labels.push(format!("modifier={l}"));
-            labels.push("one_modifier".into());
-            let _ = write!(lit, "{{{}:{}}}", r.pos, spec.render());
-            args = r.args.clone();
-            if r.inline {
-                inline_names.push(r.value.clone());
+            let which = d.pick(9);
+            if which == 8 {
+                // width taken from an argument or a field (`N$`, `name$`): a modifier exactly like a literal width
+                labels.push("modifier=count_parameter".into());
+                labels.push("one_modifier".into());
+                let size = sh.fields.iter().find(|f| f.kind == K::Size).cloned();
+                match (size, d.pick(3)) {
+                    (Some(w), 0) => {
+                        // the only argument is both the value and its own width
+                        lit = "{0:0$}".into();
+                        let e = format!("*{}", w.name);
+                        args = vec![e.clone()];
+                        first = Some((Refer { pos: "0".into(), args: vec![], value: e, inline: false, bare_field: false, kind: K::Size, label: "" }, String::new()));
+                    }
+                    (Some(w), 1) => {
+                        lit = "{k:k$}".into();
+                        let e = format!("*{}", w.name);
+                        args = vec![format!("k = {e}")];
+                        first = Some((Refer { pos: "k".into(), args: vec![], value: e, inline: false, bare_field: false, kind: K::Size, label: "" }, String::new()));
+                    }
+                    (Some(w), _) => {
+                        // a field named in the literal, its width another (or the same) `usize` field named in the literal
+                        let g = sh.fields[d.pick(sh.fields.len())].clone();
+                        let tys = bare_tys(g.kind);
+                        let ty = tys[d.pick(tys.len())];
+                        lit = format!("{{{}:{}${ty}}}", unraw(&g.name), unraw(&w.name));
+                        inline_names.push(g.name.clone());
+                        if g.name != w.name {
+                            inline_names.push(w.name.clone());
+                        }
+                        labels.push("count_parameter_is_field_named_in_literal".into());
+                        first = Some((Refer { pos: unraw(&g.name), args: vec![], value: g.name.clone(), inline: true, bare_field: true, kind: g.kind, label: "" }, ty.to_string()));
+                    }
+                    (None, _) => {
+                        let f = sh.fields[d.pick(sh.fields.len())].clone();
+                        let (expr, kind, bare) = arg_expr(&f, d);
+                        let tys = bare_tys(kind);
+                        let ty = tys[d.pick(tys.len())];
+                        lit = format!("{{0:1${ty}}}");
+                        args = vec![expr.clone(), "4usize".to_string()];
+                        first = Some((Refer { pos: "0".into(), args: vec![], value: expr, inline: false, bare_field: bare, kind, label: "" }, ty.to_string()));
+                    }
+                }
+            } else {
+                let r = gen_refer(d, &sh);
+                let (spec, l) = one_modifier(d, r.kind, which);
+                labels.push(format!("modifier={l}"));
+                labels.push("one_modifier".into());
+                let _ = write!(lit, "{{{}:{}}}", r.pos, spec.render());
+                args = r.args.clone();
+                if r.inline {
+                    inline_names.push(r.value.clone());
+                }
+                first = Some((r, spec.render()));
             }
-            first = Some((r, spec.render()));
         }
         1 => {
             // bare placeholder plus text / escape
@@ -546,9 +719,9 @@ fn build_inert(d: &mut Dice) -> GenCase {
                     let tys = bare_tys(f.kind);
                     let ty = tys[d.pick(tys.len())];
                     let tail = if ty.is_empty() { String::new() } else { format!(":{ty}") };
-                    lit = format!("{{{0}{tail}}}{{{0}{tail}}}", f.name);
+                    lit = format!("{{{0}{tail}}}{{{0}{tail}}}", unraw(&f.name));
                     inline_names.push(f.name.clone());
-                    first = Some((Refer { pos: f.name.clone(), args: vec![], value: f.name.clone(), inline: true, bare_field: true, kind: f.kind, label: "" }, ty.to_string()));
+                    first = Some((Refer { pos: unraw(&f.name), args: vec![], value: f.name.clone(), inline: true, bare_field: true, kind: f.kind, label: "" }, ty.to_string()));
                 }
                 _ => {
                     // two implicit positional arguments
@@ -607,6 +780,11 @@ fn build_inert(d: &mut Dice) -> GenCase {
             labels.push(r.label.to_string());
         }
     }
+    if sh.is_enum && sh.shared_only {
+        labels.push("enum_level_format_under_test".into());
+        labels.push("inert_enum_level_default".into());
+    }
+    push_raw_labels(&mut labels, &sh, &lit);
     c.labels = labels;
     c.meta = json!({"class": "inert", "literal": lit});
     c
@@ -653,7 +831,7 @@ fn build_negative(d: &mut Dice) -> GenCase {
             let f2 = sh.fields[d.pick(sh.fields.len())].clone();
             (format!("{{{tail}}}"), vec![expr.clone(), f2.name.clone()], "neg=unused_positional_argument", false)
         }
-        _ => (format!("{{{}}}", f.name), vec![format!("zz = {}", f.name)], "neg=unused_named_argument", false),
+        _ => (format!("{{{}}}", unraw(&f.name)), vec![format!("zz = {}", f.name)], "neg=unused_named_argument", false),
     };
     let single_model = single;
     let mut c = GenCase::new(sh.render(Some(&attr_args(&lit, &args)), "", "    let _ = (o, v);\n"));
@@ -661,7 +839,10 @@ fn build_negative(d: &mut Dice) -> GenCase {
     c.runnable = false;
     c.labels = vec!["class=negative".into(), label.into(), format!("trait={}", sh.tr), format!("kind={}", if sh.is_enum { "enum" } else { "struct" })];
     c.nontrivial = true;
-    c.meta = json!({"class": "negative", "literal": lit, "single_arg_bare_out_of_range": single_model, "nargs": args.len()});
+    c.meta = json!({"class": "negative", "literal": lit, "single_arg_bare_out_of_range": single_model, "nargs": args.len(), "attr": sh.attr});
+    if sh.is_enum && sh.shared_only {
+        c.labels.push("enum_level_format_under_test".into());
+    }
     c
 }
 
@@ -703,7 +884,7 @@ pub fn prop() -> DiceProp {
         fixed: no_fixed,
         classify,
         rule: format!(
-            "struct / enum variant with 1..3 fields (i32, f64, &str, &i32, usize; positional or named) deriving one of the 9 fmt traits; classes: implicit (8 Display-like traits, single field, no attribute), subst (literal = one bare placeholder in any of the 9 placeholder traits naming a field, its only positional argument as `{{}}`/`{{0}}`, its only named argument by name or by position; argument = field, expression, method call, format_args!), inert (one placeholder with exactly one of align / fill / sign / # / 0 / width / precision / x? / X?; bare placeholder plus text or escape; two placeholders; none), negative (index out of range with 0, 1, 2 arguments, unused positional / named argument); every runnable case is evaluated under {ns} outer specs (each single modifier, all-pairs over fill+align x sign x # x 0 x width x precision, 40 fixed random; for derive(Debug) under ?, x? and X?): subst/implicit must equal the same spec applied to the argument under the placeholder's trait, inert must equal the flag-free output which must equal format!(literal, args); non-trivial = the argument is not a format_args! (which ignores flags itself): the grid always contains specs that change its text (measured per case as `sensitive`); distinct by program text"
+            "struct / enum variant with 1..3 fields (i32, f64, &str, &i32, usize; positional or named) deriving one of the 9 fmt traits; classes: implicit (8 Display-like traits, single field, no attribute), subst (literal = one bare placeholder in any of the 9 placeholder traits naming a field, its only positional argument as `{{}}`/`{{0}}`, its only named argument by name or by position; argument = field, expression, method call, format_args!), inert (one placeholder with exactly one of align / fill / sign / # / 0 / width / precision / x? / X?; bare placeholder plus text or escape; two placeholders; none), negative (index out of range with 0, 1, 2 arguments, unused positional / named argument); every runnable case is evaluated under {ns} outer specs (each single modifier, all-pairs over fill+align x sign x # x 0 x width x precision, 40 fixed random; for derive(Debug) under ?, x? and X?): subst/implicit must equal the same spec applied to the argument under the placeholder's trait, inert must equal the flag-free output which must equal format!(literal, args); additional classes: the format under test written on the enum for an attribute-less variant (subst and inert), attribute-less variant under an enum-level default (inert), raw-identifier fields named in the literal / used as alias, `{{:}}` empty spec, whitespace before the colon, trailing commas, `N$`/`name$` width parameters as the one modifier, field-less types with a constant argument; negative cases must be rejected with a diagnostic about format arguments; non-trivial = the argument is not a format_args! (which ignores flags itself): the grid always contains specs that change its text (measured per case as `sensitive`); distinct by program text"
         ),
         assumptions: vec![
             "format! of the installed stable toolchain applied to the argument directly is the reference".into(),
@@ -719,6 +900,7 @@ pub fn prop() -> DiceProp {
             ("arg=positional_expression".into(), 0.08),
             ("arg=named_matching".into(), 0.05),
             ("arg=named_by_position".into(), 0.05),
+            ("arg=positional_placeholder_aliased_argument".into(), 0.04),
             ("one_modifier".into(), 0.08),
             ("surrounding_text".into(), 0.05),
             ("two_placeholders".into(), 0.05),
@@ -726,15 +908,86 @@ pub fn prop() -> DiceProp {
             ("neg=index_without_arguments".into(), 0.01),
             ("trait=Debug".into(), 0.05),
             ("kind=enum".into(), 0.15),
+            ("enum_level_format_under_test".into(), 0.03),
+            ("subst_enum_level_bare_placeholder".into(), 0.01),
+            ("raw_identifier_in_placeholder".into(), 0.01),
+            ("empty_spec_after_colon".into(), 0.005),
+            ("implicit_under_enum_level_default".into(), 0.003),
         ],
         shards: 0,
     }
 }
 
+/// `DiceProp` plus a control on the negative class: a must-fail case has to be rejected *for the reason it was built
+/// for* (rustc's diagnostics about format arguments), not because the generated item is broken in some other way.
+pub struct P05(pub DiceProp);
+
+impl ProgProp for P05 {
+    type Case = GenCase;
+    fn spec(&self, ctx: &super::core::Ctx) -> super::proggen::ProgSpec {
+        self.0.spec(ctx)
+    }
+    fn strategy(&self, ctx: &super::core::Ctx) -> proptest::strategy::BoxedStrategy<GenCase> {
+        self.0.strategy(ctx)
+    }
+    fn budget(&self, tier: super::core::Tier) -> (usize, u32) {
+        self.0.budget(tier)
+    }
+    fn fixed_cases(&self, ctx: &super::core::Ctx) -> Vec<GenCase> {
+        self.0.fixed_cases(ctx)
+    }
+    fn canonical(&self, c: &GenCase) -> String {
+        self.0.canonical(c)
+    }
+    fn nontrivial(&self, c: &GenCase) -> bool {
+        self.0.nontrivial(c)
+    }
+    fn labels(&self, c: &GenCase) -> Vec<String> {
+        self.0.labels(c)
+    }
+    fn render(&self, c: &GenCase) -> super::proggen::CaseSrc {
+        self.0.render(c)
+    }
+    fn render_control(&self, c: &GenCase) -> Option<super::proggen::CaseSrc> {
+        self.0.render_control(c)
+    }
+    fn judge(&self, ctx: &super::core::Ctx, c: &GenCase, r: &CaseResult) -> Vec<Finding> {
+        let mut out = self.0.judge(ctx, c, r);
+        if !c.expect_compile && !r.compiled {
+            // every diagnostic of rustc about a placeholder / argument mismatch speaks of "argument(s)" or of the
+            // "format string"; a derive diagnostic about the attribute would mention the attribute's name
+            let t = r.error_text().to_lowercase();
+            let attr = c.meta["attr"].as_str().unwrap_or("display");
+            if !(t.contains("argument") || t.contains("format string") || t.contains(&format!("#[{attr}("))) {
+                out.push(Finding {
+                    sig: None,
+                    summary: format!("generator fault: a negative case is rejected for a reason unrelated to its placeholder/argument mismatch: {}", r.first_error()),
+                    expected: "a diagnostic about the format arguments (invalid reference to positional argument / argument never used / ...)".into(),
+                    observed: r.error_text(),
+                    warnings: vec![],
+                });
+            }
+        }
+        out
+    }
+    fn floors(&self) -> Vec<(String, f64)> {
+        self.0.floors()
+    }
+    fn sample_json(&self, c: &GenCase) -> serde_json::Value {
+        self.0.sample_json(c)
+    }
+    fn rule(&self) -> String {
+        self.0.rule()
+    }
+    fn assumptions(&self) -> Vec<String> {
+        self.0.assumptions()
+    }
+}
+
 pub fn run(ctx: &super::core::Ctx) -> super::core::Report {
-    super::progprop::run(&prop(), ctx)
+    super::progprop::run(&P05(prop()), ctx)
 }
 
 pub fn replay(ctx: &super::core::Ctx, case: &serde_json::Value) -> super::core::Report {
-    super::progprop::replay(&prop(), ctx, case)
+    super::progprop::replay(&P05(prop()), ctx, case)
 }
